@@ -339,8 +339,67 @@ class LockStep:
             return False
         return True
 
-    def run(self, n, p_bad=0.0):
+    # -- what a call returned belongs to the caller -----------------------
+    def alias_probe(self):
+        """Bucket/Set: the lists returned by keys()/values()/items() are the
+        caller's.  They must not change when the container changes later,
+        and scrambling them must not change the container."""
+        if self.is_tree:
+            return True
+        rng, rec = self.rng, self.rec
+        held = {'keys': self.c.keys()}
+        if self.is_mapping:
+            held['values'] = self.c.values()
+            held['items'] = self.c.items()
+        snap = {k: list(v) for k, v in held.items()}
+        if not all(isinstance(v, list) for v in held.values()):
+            return True
+        # a few mutating calls on the container
+        for _ in range(rng.randint(1, 3)):
+            present = self.m.sorted_keys()
+            for _try in range(5):
+                op, args = self.g.next_op(None, present)
+                if op in MUTATING_OPS:
+                    break
+            else:
+                continue
+            if not self.step(op, args):
+                return False
+        rec.evaluations += 1
+        rec.ev('alias-probes')
+        for k in held:
+            if not eq(held[k], snap[k]):
+                self.violation('returned-list-changed-with-the-container',
+                               method=k, observed=brief(held[k], 200),
+                               expected=brief(snap[k], 200))
+                return False
+        # the caller scrambles its lists
+        for v in held.values():
+            v.reverse()
+            if v and rng.random() < .5:
+                del v[0]
+        try:
+            got = harness.contents(self.c, self.is_mapping)
+            found = all(k_ in self.c for k_ in self.m.sorted_keys())
+        except Exception as e:
+            self.violation('contents-raised', op='alias-probe',
+                           detail='%s: %s' % (type(e).__name__, e))
+            return False
+        if not eq(got, self.m.contents()) or not found:
+            self.violation('container-changed-through-a-returned-list',
+                           observed=brief(got, 300),
+                           expected=brief(self.m.contents(), 300),
+                           lookups_ok=found)
+            return False
+        return True
+
+    def run(self, n, p_bad=0.0, p_alias=0.0):
         for _ in range(n):
+            if p_alias and not self.is_tree and \
+                    self.rng.random() < p_alias:
+                if not self.alias_probe():
+                    return False
+                continue
             if p_bad and self.rng.random() < p_bad:
                 if not self.bad_step():
                     return False
